@@ -7,6 +7,7 @@
    same lists is NOT a theorem here -- it is what the correspondence check of this property tests
    on the real code generator, variant against variant and against the model. *)
 From Coq Require Import List NArith Bool.
+From HV Require Import Partition.Base GraphAlg.Model GraphAlg.PTopo Partition.Model Dfir.PSubdiv Dfir.PSubdivPart.
 From HV Require Import Dfir.Model Dfir.ModelTick Dfir.ModelFlat Dfir.ModelRealise Dfir.POps Dfir.PRealise Dfir.PFlatCheck Dfir.ModelRewrite Dfir.PFlat Dfir.PRewrite Dfir.PRename.
 Import ListNotations.
 
@@ -132,6 +133,42 @@ Theorem C22_rename_preserves_run : forall (rho sigma : N -> N),
   forall id, olookup (sigma id) (w_st w2) = olookup id (w_st w1).
 Proof. exact rename_preserves_run. Qed.
 Print Assumptions C22_rename_preserves_run.
+
+(* (iii) compile / fail agreement.  The perturbations splice a pass-through operator into a
+   non-delayed edge and (tee+null, union+null) hang a leaf on it.  On any dependency relation:
+   subdividing a dependency u -> v by a fresh node m, and adding a fresh pure source or pure sink,
+   neither create nor remove a cycle.  On engine E6's partitioner model (Partition/Model.v, flat
+   graphs without loop blocks and references -- the perturbation catalogue): the same-tick
+   dependencies are the non-delayed pipe edges, replacing a non-delayed pipe edge u -> v by
+   u -> m -> v (m a fresh operator with undelayed input) is such a subdivision, hence by
+   C19_rejects_iff_cycle the partitioner rejects the perturbed graph iff it rejects the base. *)
+Theorem C22_cycles_preserved :
+  (forall preds preds' u v m nodes, sub_ok preds preds' u v m ->
+     (forall x p, In p (preds x) -> In x nodes /\ In p nodes) -> ~ In m nodes ->
+     ((exists c, is_cycle preds c) <-> (exists c, is_cycle preds' c))) /\
+  (forall (preds preds' : N -> list N) q nodes,
+     (forall x p, In p (preds x) -> In x nodes /\ In p nodes) -> ~ In q nodes ->
+     (forall p x, In p (preds x) -> In p (preds' x)) ->
+     ((forall p x, In p (preds' x) -> In p (preds x) \/ (p = q /\ In x nodes)) /\ preds' q = [] \/
+      (forall p x, In p (preds' x) -> In p (preds x) \/ (x = q /\ In p nodes)) /\ (forall x, ~ In q (preds' x))) ->
+     ((exists c, is_cycle preds c) <-> (exists c, is_cycle preds' c))).
+Proof. split; [exact subdivision_keeps_cycles | exact leaf_keeps_cycles]. Qed.
+Print Assumptions C22_cycles_preserved.
+
+Theorem C22_compile_agreement : forall (T : optable) (g g' : graph) (e0 e1 e2 : edge) (u v m : N),
+  simple g -> simple g' ->
+  In e0 (g_edges g) /\ e_src e0 = u /\ e_dst e0 = v /\ is_tick T g e0 = false ->
+  e_src e1 = u /\ e_dst e1 = m -> e_src e2 = m /\ e_dst e2 = v ->
+  (forall e, In e (g_edges g') <-> (In e (g_edges g) /\ e <> e0) \/ e = e1 \/ e = e2) ->
+  ~ In m (node_ids g) ->
+  (forall e, In e (g_edges g) -> In (e_src e) (node_ids g) /\ In (e_dst e) (node_ids g)) ->
+  (forall id, id <> m -> node_of g' id = node_of g id) ->
+  is_tick T g' e1 = false ->
+  deps_closed_b T g = true -> access_conflict g = false -> enemy_self_pair T g = false ->
+  deps_closed_b T g' = true -> access_conflict g' = false -> enemy_self_pair T g' = false ->
+  ((exists c, partition_verdict T g = Rejected c) <-> (exists c, partition_verdict T g' = Rejected c)).
+Proof. exact splice_keeps_verdict. Qed.
+Print Assumptions C22_compile_agreement.
 
 Example C22_example :
   run_op (op_union 2) [[[VN 1; VN 2]; []]; [[VN 3]; []]] = [[[VN 1; VN 2]]; [[VN 3]]].
